@@ -177,6 +177,7 @@ def run(ctx: common.Ctx):
     run_files(ctx, drv)
     run_copy(ctx, drv)
     run_assemble(ctx, drv)
+    run_cli_list(ctx, drv)
     for p, c in cases[ncorpus + 5000: ncorpus + 5003]:
         ctx.sample({"pps": p, "chunks": c, "output": impl_run(p, c)})
 
@@ -358,6 +359,64 @@ def run_assemble(ctx, drv):
                      "the generator's processor list lacks a processor the language configuration asks for, or drops/reorders the caller's",
                      {"given": g, "limit_empty_lines": lim, "trim_trailing_whitespace": tr, "assembled": got})
     ctx.sample({"stream": "assemble", "given": cases[-1][0], "limit": cases[-1][1], "trim": cases[-1][2], "assembled": model[-1]})
+
+
+def run_cli_list(ctx, drv):
+    """The processor list of a CLI run: real argparse -> real _build_post_processor_list_from_args -> real _handle_post_processors."""
+    import nunavut._postprocessors as npp
+    import nunavut.cli
+    from nunavut.cli.runners import ArgparseRunner
+    from nunavut.jinja import CodeGenerator
+
+    class FakeLanguage:
+        def __init__(self, limit, trim):
+            self.limit, self.trim = limit, trim
+
+        def get_config_value(self, key):
+            if key == "limit_empty_lines" and self.limit is not None:
+                return str(self.limit)
+            raise KeyError(key)
+
+        def get_config_value_as_bool(self, key, default_value=False):
+            return self.trim if key == "trim_trailing_whitespace" else default_value
+
+    def show(objs):
+        out = []
+        for o in objs:
+            out.append("T" if isinstance(o, npp.TrimTrailingWhitespace) else f"L{o._max_empty_lines}" if isinstance(o, npp.LimitEmptyLines)
+                       else "O1" if isinstance(o, npp.ExternalProgramEditInPlace) else "O0" if isinstance(o, npp.SetFileMode) else "O9")
+        return ",".join(out)
+
+    parser = nunavut.cli._make_parser()
+    cases = [(tr, mx, pr, lim, ctr) for tr in (False, True) for mx in (None, 0, 1, 3) for pr in (False, True)
+             for lim in (None, 0, 1) for ctr in (False, True)]
+    reqs = [f"cli {int(tr)} {'N' if mx is None else mx} {int(pr)} {'N' if lim is None else lim} {int(ctr)}" for tr, mx, pr, lim, ctr in cases]
+    model = drv.ask(reqs) if drv is not None else [None] * len(reqs)
+    for (tr, mx, pr, lim, ctr), m in zip(cases, model):
+        argv = ["ns_dir"]
+        if tr:
+            argv.append("--pp-trim-trailing-whitespace")
+        if mx is not None:
+            argv += ["--pp-max-emptylines", str(mx)]
+        if pr:
+            argv += ["--pp-run-program", "true"]
+        runner = object.__new__(ArgparseRunner)
+        runner._args = parser.parse_args(argv)
+        got = show(CodeGenerator._handle_post_processors(FakeLanguage(lim, ctr), runner._build_post_processor_list_from_args()))
+        ctx.case(("cli-list", tr, mx, pr, lim, ctr), True)
+        ctx.count("cli_processor_lists")
+        if m is not None:
+            ctx.traces += 1
+            if m != got:
+                ctx.disagree("linebuf-cli", {"argv": argv, "limit_empty_lines": lim, "trim_trailing_whitespace": ctr}, m, got)
+        limits = [t for t in got.split(",") if t.startswith("L")]
+        want = mx if mx is not None else lim
+        ok = (limits[:1] == ([f"L{want}"] if want is not None else [])) and len(limits) <= 1 and ((not (tr or ctr)) or "T" in got.split(","))
+        if not ok:
+            ctx.fail({"kind": "cli-processor-list"},
+                     "the processors of a CLI run are not the ones the command line (and the language configuration) ask for",
+                     {"argv": argv, "limit_empty_lines": lim, "trim_trailing_whitespace": ctr, "assembled": got})
+    ctx.sample({"stream": "cli-list", "request": reqs[-1], "assembled": model[-1]})
 
 
 def replay(ctx, path):
